@@ -1,10 +1,20 @@
 (** Extraction of the executable model to OCaml for the correspondence check.
     Only the directives of ExtrOcamlBasic are used (bool, option, unit, list, prod, sumbool, sumor
-    mapped to their OCaml counterparts); N, positive, Z and everything else stay Coq datatypes. *)
-Require Import PM.Base PM.Varint PM.Oracles PM.Directory.
+    mapped to their OCaml counterparts); N, positive, Z, Flocq's binary_float and everything else
+    stay Coq datatypes. *)
+Require Import PM.Base PM.Varint PM.Oracles PM.Directory PM.Params PM.Stream PM.Float PM.Header
+               PM.Hilbert PM.TileManager PM.DirWriter PM.DirReader PM.Archive PM.History PM.FinishSpec.
 From Coq Require Import ExtrOcamlBasic.
 Extraction Language OCaml.
 Extraction "extracted/model.ml"
   write_varint read_varint64 read_varint32
   decode_dir_plain encode_dir_plain spec_encode_dir valid_dirb find_entry
-  compress decompress_lazy decompress_all decode_dir encode_dir.
+  compress decompress_lazy decompress_all decode_dir encode_dir
+  encode_header decode_header encode_stored decode_stored to_stored of_stored
+  f64_of_bits bits_of_f64 stored_of_deg deg_of_stored stored_of_deg_trunc
+  tile_id zxy in_grid hilbert_spec spec_tile_id zoom_base xy2h h2xy
+  write_directories read_directories range_end_inc in_range
+  finish logical spec_finish
+  to_writer to_bytes from_reader get_tile_xyz pm_new
+  step run
+  max_z max_root_dir_length header_bytes default_leaf_size.
